@@ -189,7 +189,7 @@ func subscribeAll(w *world, nHandlers int) {
 func TestC13Patterns(t *testing.T) {
 	run := vk.New("C13", "patterns")
 	defer run.Finish()
-	maxLen := run.Scale(6, 9)
+	maxLen := run.Scale(6, 11)
 	idx := 0
 	// every fail/succeed bit pattern of length 1..maxLen; on top of each, one unencodable publish of
 	// every kind at every position (pos -1: none)
